@@ -481,7 +481,7 @@ CALL_DEFS.update({
                      "etag_of(self.stat_result.st_mtime, self.stat_result.st_size) + '\"' or "
                      "environ['HTTP_IF_RANGE'] == httpdate(self.stat_result.st_mtime)",
     "honoured()": "has_range() and if_range_ok()",
-    "acceptable()": "bytes_unit() and some_spec() and not some_unsat() and not some_malformed()",
+    "acceptable()": "bytes_unit() and some_spec() and not some_unsat() and not some_malformed() and not some_too_long()",
 })
 CALL_UF = dict(HUF)
 CALL_UF.update({"etag_of": ([Opaque("Float"), Int], Str), "httpdate": ([Opaque("Float")], Str),
